@@ -470,8 +470,8 @@ fixes and 170 produced by independent sub-agents given **only** the property tex
 Each change was confirmed by `tools/seedverify.sh` (patch applies; suite passes in both feature sets; its demonstration fails with
 the patch and passes without). `tools/seedtest.py` applies each to `/repo`, runs the checks of the properties it breaks, and undoes
 it; `seeded/RESULTS.json` is its output and **`seeded/RESULTS.md` the full table** (seed, property, files changed, Verus obligations
-failed, BEC contracts failed, undecided units, verdict). After every change to the checks the whole set is run again (last: 192 of
-192 (change, property) pairs reported).
+failed, BEC contracts failed, undecided units, verdict). After every change to the checks the whole set is run again (last: 199 of
+199 (change, property) pairs reported; `tools/seedpar.py` does the same on scratch copies, several at a time, without touching `/repo`).
 
 Misses on first contact (and one relabelled seed) and what was strengthened (never by weakening a check):
 
